@@ -119,6 +119,9 @@ class NullStats(Stats):
         pass
 
 
+_NULL = NullStats()
+
+
 # --------------------------------------------------------------------------------------------
 # classification of exceptions: library (violation material) versus harness (exit 2)
 
@@ -205,19 +208,29 @@ def hyp(stats: Stats, strategy, oracle, max_examples, seed_value, shrink=True, l
     phases = [Phase.explicit, Phase.generate] + ([Phase.shrink] if shrink else [])
     box = {}
 
+    shrink_budget = int(os.environ.get("VERIF_SHRINK_BUDGET", "400"))
+
     @hypothesis.seed(seed_value)
     @settings(max_examples=max_examples, database=None, deadline=None, derandomize=False,
               report_multiple_bugs=False, suppress_health_check=list(HealthCheck), phases=phases,
               print_blob=False, verbosity=hypothesis.Verbosity.quiet)
     @given(strategy)
     def test(case):
+        if "best" in box:
+            # shrinking is bounded by executions, not wall clock: beyond the budget every candidate other than the
+            # current best is treated as "does not fail", so Hypothesis settles on the best case found so far
+            box["n"] = box.get("n", 0) + 1
+            if box["n"] > shrink_budget and case != box["best"]:
+                return
         try:
-            guarded(oracle, case, stats)
+            guarded(oracle, case, stats if "best" not in box else _NULL)
         except Violation as v:
             box["v"] = v
+            box["best"] = case
             raise
         except HarnessError as h:
             box["h"] = h
+            box["best"] = case
             raise
 
     try:
@@ -227,6 +240,13 @@ def hyp(stats: Stats, strategy, oracle, max_examples, seed_value, shrink=True, l
         stats.fail(v.case, v.message)
     except HarnessError as h:
         stats.harness_errors.append(str(box.get("h", h)))
+    except hypothesis.errors.Flaky as e:
+        # the oracle is a pure function of (case, code under test): a case that fails once and passes when re-run in the same
+        # process means the code's result depends on what was processed before (hidden state) - reported, not swallowed
+        if "v" in box:
+            stats.fail(box["v"].case, "[order-dependent: failed, then passed when re-run in the same process - hidden state between runs] " + box["v"].message)
+        else:
+            stats.harness_errors.append("hypothesis Flaky in %s: %s" % (label, str(e)[:300]))
     except hypothesis.errors.Unsatisfiable as e:
         stats.harness_errors.append("hypothesis Unsatisfiable in %s: %s" % (label, e))
     return stats
